@@ -36,7 +36,20 @@ func sortedCalls[V any](m map[*CallStm]V) []*CallStm {
 		if calls[i].Id != calls[j].Id {
 			return calls[i].Id < calls[j].Id
 		}
-		return calls[i].Node.Loc.Line < calls[j].Node.Loc.Line
+		li, lj := calls[i].Node.Loc, calls[j].Node.Loc
+		if li.Line != lj.Line {
+			return li.Line < lj.Line
+		}
+		// Calls sharing an ID can be on the same line of different files.
+		if li.File != lj.File {
+			if li.File == nil || lj.File == nil {
+				return li.File == nil
+			}
+			if li.File.FullPath != lj.File.FullPath {
+				return li.File.FullPath < lj.File.FullPath
+			}
+		}
+		return li.Col < lj.Col
 	})
 	return calls
 }
